@@ -373,10 +373,15 @@ theorem getTables_eq (A : Archetype) (rels : List RelID)
       obtain ⟨i, hi⟩ := Option.isSome_iff_exists.mp hsome
       have hidx : ((ofArchM A).componentsMap.getD r.comp 0) = i := by
         simp [ofArchM, List.getD_eq_getElem?_getD, hlt, hi]
-      simp only [Bool.not_true, Bool.false_or, List.length_map, List.length_cons, Nat.add_eq_zero_iff,
-        Nat.succ_ne_zero, and_false, beq_iff_eq, ↓reduceIte, hi, List.map_cons]
-      simp only [List.getD_cons_zero, ofRel, hidx]
-      simp only [ofArchM, ofArch]
-      cases AL.find? (A.relationTables.getD i []) r.target.id <;> rfl
+      have hidx' : (ofArchM A).componentsMap[r.comp]?.getD 0 = i := by
+        simpa [List.getD_eq_getElem?_getD] using hidx
+      have hrt : (ofArchM A).relationTables = A.relationTables := by simp [ofArchM, ofArch]
+      -- shape-robust: whatever order of tests and whichever lets the source uses
+      simp only [Bool.not_true, Bool.false_or, Bool.or_false, List.length_map, List.length_cons,
+        Nat.add_eq_zero_iff, Nat.succ_ne_zero, and_false, beq_iff_eq, ↓reduceIte, hi, List.map_cons,
+        List.getD_cons_zero, ofRel, hidx, hidx', hrt, Bool.false_eq_true, List.getD_eq_getElem?_getD,
+        List.getElem?_cons_zero, Option.getD_some]
+      generalize AL.find? (A.relationTables[i]?.getD []) r.target.id = o
+      cases o <;> simp
 
 end Ark.GenBridge.Book
